@@ -376,10 +376,11 @@ func buildExpressionEx(input map[string]interface{}, depth int) (string, bool, e
 }
 
 // formatNumber writes a JSON number as the GRL literal of the same value: an integral number as an integer literal
-// (a float literal could not be used with %, & and |, as an index, or be printed as an integer by +), anything
-// too large for an integer literal in exponent form, which the grammar reads as a float literal.
+// (a float literal could not be used with %, & and |, as an index, or be printed as an integer by +). From 2^53 on a
+// float64 no longer holds every integer, so what the JSON text said is not known exactly any more: such a number
+// stays a float literal, in exponent form, and is compared and computed with as a float.
 func formatNumber(number float64) string {
-	if math.Abs(number) >= 1<<63 {
+	if math.Abs(number) >= 1<<53 {
 
 		return strconv.FormatFloat(number, 'e', -1, 64)
 	}
